@@ -228,6 +228,20 @@ def _strict_json(text):
     return v
 
 
+def _scribble(x, depth=0):
+    """edit every container of a decoded document in place"""
+    if depth > 50:
+        return
+    if isinstance(x, list):
+        for y in x:
+            _scribble(y, depth + 1)
+        x.append("<edited>")
+    elif isinstance(x, dict):
+        for y in list(x.values()):
+            _scribble(y, depth + 1)
+        x["<edited>"] = 1
+
+
 def check_direct(kind, text, carrier, col):
     tl.clear_all()
     case = {"kind": kind, "text": text if len(text) < 400 else None, "text_gen": _gen(text), "carrier": carrier}
@@ -279,6 +293,15 @@ def check_direct(kind, text, carrier, col):
             if k == "exc" or snapshot(r) != snapshot(want[1]):
                 col.violation(f"{fname}-json", case, f"{fname}({carrier} of {text[:60]!r}) -> {(tl.exc_name(r) if k == 'exc' else repr(r))[:80]}, json.loads -> {want[1]!r:.80}",
                               bucket=f"{carrier}|{tl.exc_name(r) if k == 'exc' else diff_bucket(r, want[1])}"[:90])
+            elif isinstance(r, (list, dict)):
+                # what load hands out is the caller's: editing it (nested members included) must not change what the
+                # same text decodes to afterwards
+                _scribble(r)
+                k2, r2 = tl.call(f, inputs.carry(text, carrier))
+                if k2 == "exc" or snapshot(r2) != snapshot(want[1]):
+                    col.violation(f"{fname}-json", dict(case, after="the previous result was edited in place"),
+                                  f"{fname}({carrier} of {text[:60]!r}) after editing the previous result -> {(tl.exc_name(r2) if k2 == 'exc' else repr(r2))[:80]}, json.loads -> {want[1]!r:.80}",
+                                  bucket=f"after-edit|{carrier}")
         elif want[0] == "plain":
             if k == "exc" or type(r) is not str or r != text:
                 col.violation(f"{fname}-plain-text-unchanged", case,
